@@ -212,11 +212,19 @@ class C20b(Obligation):
         proj.added_sys_path = added
         state = Obj(environment=Obj(get_sys_path=lambda: list(base)), script_path=script_path)
         proj._get_base_sys_path = lambda st: [b for k, b in enumerate(base) if not _first_empty(ctx, base, k)]
+        added_before = list(added)
+        explicit_before = list(explicit) if explicit is not None else None
         out = ctx.call(raw(Project._get_sys_path), proj, state)
         ctx.check(out.exc is None, 'never raises')
         if out.exc is not None:
             return
         got = out.value
+        ctx.check(proj.added_sys_path is added and len(added) == len(added_before)
+                  and all(a is b for a, b in zip(added, added_before)),
+                  'computing the path does not modify the project settings (added_sys_path)')
+        if explicit is not None:
+            ctx.check(proj._sys_path is explicit and len(explicit) == len(explicit_before),
+                      'computing the path does not modify the project settings (sys_path)')
 
         # ---- reference
         ref = []
